@@ -9,7 +9,8 @@ fn slot(rng: &mut Rng) -> u64 {
     rng.below(NP as u64)
 }
 fn form(rng: &mut Rng) -> u64 {
-    let f = rng.below(20);
+    // 0..9: the ownership / assignment / Context forms; + 16 * m: the same under rounding mode m (float binary operators)
+    let f = rng.below(10) + 16 * [0u64, 0, 0, 0, 1, 2, 3, 4, 5, 1][rng.below(10) as usize];
     if rng.chance(1, 4) {
         f | 256
     } else {
@@ -40,7 +41,13 @@ pub fn gen_float(rng: &mut Rng, sw: &Swarm) -> Op {
                 .m(if rng.chance(1, 2) { -prec } else { prec })
                 .lit(gen_lit_bits(rng, bits))
         }
-        6 => Op::new(&nm("special")).dst(d).n(rng.below(6) as i64).m(rng.below(100) as i64),
+        6 => {
+            if rng.chance(2, 3) {
+                Op::new(&nm("special")).dst(d).n(rng.below(6) as i64).m(rng.below(100) as i64)
+            } else {
+                Op::new(&nm("static")).dst(d).n(rng.below(5) as i64).form(rng.below(3))
+            }
+        }
         7..=15 => Op::new(&nm(rng.pick(&["add", "sub", "mul", "div", "rem", "add", "sub", "mul"]))).a(a).b(b).dst(d).form(form(rng)),
         16 | 17 => Op::new(&nm(rng.pick(&["addi", "subi", "muli", "divi", "addu", "subu", "mulu", "divu", "diveuclid"]))).a(a).b(b).dst(d).form(rng.below(12)),
         18 | 19 => Op::new(&nm(rng.pick(&["shl", "shr"]))).a(a).dst(d).n(rng.range(-70, 70)).form(form(rng)),
@@ -106,7 +113,13 @@ pub fn gen_ratio(rng: &mut Rng, sw: &Swarm) -> Op {
                 .m(rng.below(2) as i64)
                 .lit(gen_lit_bits(rng, bits))
         }
-        6 => Op::new(&nm("fromparts")).a(a).b(b).dst(d).form(rng.below(2)),
+        6 => {
+            if t == "r" && rng.chance(1, 3) {
+                Op::new("r.static").dst(d).n(rng.below(6) as i64).form(rng.below(3))
+            } else {
+                Op::new(&nm("fromparts")).a(a).b(b).dst(d).form(rng.below(2))
+            }
+        }
         7..=16 => Op::new(&nm(rng.pick(&["add", "sub", "mul", "div", "rem", "add", "mul"]))).a(a).b(b).dst(d).form(form(rng)),
         17 | 18 => Op::new(&nm(rng.pick(&["addi", "subi", "muli", "divi", "addu", "subu", "mulu", "divu"]))).a(a).b(b).dst(d).form(rng.below(10)),
         19 => Op::new(&nm("pow")).a(a).dst(d).n(rng.below(9) as i64),
